@@ -82,6 +82,7 @@ type Src struct {
 	F42 ext2.Code
 	F43 *error
 	F44 unsafe.Pointer
+	F45 *fmtStringer
 }
 
 // Dst00: every field has type int.
@@ -131,6 +132,7 @@ type Dst00 struct {
 	F42 int
 	F43 int
 	F44 int
+	F45 int
 }
 
 // Dst01: every field has type int32.
@@ -180,6 +182,7 @@ type Dst01 struct {
 	F42 int32
 	F43 int32
 	F44 int32
+	F45 int32
 }
 
 // Dst02: every field has type int64.
@@ -229,6 +232,7 @@ type Dst02 struct {
 	F42 int64
 	F43 int64
 	F44 int64
+	F45 int64
 }
 
 // Dst03: every field has type uint8.
@@ -278,6 +282,7 @@ type Dst03 struct {
 	F42 uint8
 	F43 uint8
 	F44 uint8
+	F45 uint8
 }
 
 // Dst04: every field has type float64.
@@ -327,6 +332,7 @@ type Dst04 struct {
 	F42 float64
 	F43 float64
 	F44 float64
+	F45 float64
 }
 
 // Dst05: every field has type string.
@@ -376,6 +382,7 @@ type Dst05 struct {
 	F42 string
 	F43 string
 	F44 string
+	F45 string
 }
 
 // Dst06: every field has type bool.
@@ -425,6 +432,7 @@ type Dst06 struct {
 	F42 bool
 	F43 bool
 	F44 bool
+	F45 bool
 }
 
 // Dst07: every field has type MyInt.
@@ -474,6 +482,7 @@ type Dst07 struct {
 	F42 MyInt
 	F43 MyInt
 	F44 MyInt
+	F45 MyInt
 }
 
 // Dst08: every field has type MyStr.
@@ -523,6 +532,7 @@ type Dst08 struct {
 	F42 MyStr
 	F43 MyStr
 	F44 MyStr
+	F45 MyStr
 }
 
 // Dst09: every field has type ext.ID.
@@ -572,6 +582,7 @@ type Dst09 struct {
 	F42 ext.ID
 	F43 ext.ID
 	F44 ext.ID
+	F45 ext.ID
 }
 
 // Dst10: every field has type ext.Label.
@@ -621,6 +632,7 @@ type Dst10 struct {
 	F42 ext.Label
 	F43 ext.Label
 	F44 ext.Label
+	F45 ext.Label
 }
 
 // Dst11: every field has type S1.
@@ -670,6 +682,7 @@ type Dst11 struct {
 	F42 S1
 	F43 S1
 	F44 S1
+	F45 S1
 }
 
 // Dst12: every field has type S2.
@@ -719,6 +732,7 @@ type Dst12 struct {
 	F42 S2
 	F43 S2
 	F44 S2
+	F45 S2
 }
 
 // Dst13: every field has type S3.
@@ -768,6 +782,7 @@ type Dst13 struct {
 	F42 S3
 	F43 S3
 	F44 S3
+	F45 S3
 }
 
 // Dst14: every field has type Empty.
@@ -817,6 +832,7 @@ type Dst14 struct {
 	F42 Empty
 	F43 Empty
 	F44 Empty
+	F45 Empty
 }
 
 // Dst15: every field has type ext.Pet.
@@ -866,6 +882,7 @@ type Dst15 struct {
 	F42 ext.Pet
 	F43 ext.Pet
 	F44 ext.Pet
+	F45 ext.Pet
 }
 
 // Dst16: every field has type struct{ X int }.
@@ -915,6 +932,7 @@ type Dst16 struct {
 	F42 struct{ X int }
 	F43 struct{ X int }
 	F44 struct{ X int }
+	F45 struct{ X int }
 }
 
 // Dst17: every field has type *S1.
@@ -964,6 +982,7 @@ type Dst17 struct {
 	F42 *S1
 	F43 *S1
 	F44 *S1
+	F45 *S1
 }
 
 // Dst18: every field has type **S1.
@@ -1013,6 +1032,7 @@ type Dst18 struct {
 	F42 **S1
 	F43 **S1
 	F44 **S1
+	F45 **S1
 }
 
 // Dst19: every field has type *int.
@@ -1062,6 +1082,7 @@ type Dst19 struct {
 	F42 *int
 	F43 *int
 	F44 *int
+	F45 *int
 }
 
 // Dst20: every field has type []int.
@@ -1111,6 +1132,7 @@ type Dst20 struct {
 	F42 []int
 	F43 []int
 	F44 []int
+	F45 []int
 }
 
 // Dst21: every field has type []MyInt.
@@ -1160,6 +1182,7 @@ type Dst21 struct {
 	F42 []MyInt
 	F43 []MyInt
 	F44 []MyInt
+	F45 []MyInt
 }
 
 // Dst22: every field has type []S1.
@@ -1209,6 +1232,7 @@ type Dst22 struct {
 	F42 []S1
 	F43 []S1
 	F44 []S1
+	F45 []S1
 }
 
 // Dst23: every field has type []*S1.
@@ -1258,6 +1282,7 @@ type Dst23 struct {
 	F42 []*S1
 	F43 []*S1
 	F44 []*S1
+	F45 []*S1
 }
 
 // Dst24: every field has type [][]S1.
@@ -1307,6 +1332,7 @@ type Dst24 struct {
 	F42 [][]S1
 	F43 [][]S1
 	F44 [][]S1
+	F45 [][]S1
 }
 
 // Dst25: every field has type []string.
@@ -1356,6 +1382,7 @@ type Dst25 struct {
 	F42 []string
 	F43 []string
 	F44 []string
+	F45 []string
 }
 
 // Dst26: every field has type []interface{}.
@@ -1405,6 +1432,7 @@ type Dst26 struct {
 	F42 []interface{}
 	F43 []interface{}
 	F44 []interface{}
+	F45 []interface{}
 }
 
 // Dst27: every field has type []ext.Pet.
@@ -1454,6 +1482,7 @@ type Dst27 struct {
 	F42 []ext.Pet
 	F43 []ext.Pet
 	F44 []ext.Pet
+	F45 []ext.Pet
 }
 
 // Dst28: every field has type map[string]int.
@@ -1503,6 +1532,7 @@ type Dst28 struct {
 	F42 map[string]int
 	F43 map[string]int
 	F44 map[string]int
+	F45 map[string]int
 }
 
 // Dst29: every field has type interface{}.
@@ -1552,6 +1582,7 @@ type Dst29 struct {
 	F42 interface{}
 	F43 interface{}
 	F44 interface{}
+	F45 interface{}
 }
 
 // Dst30: every field has type error.
@@ -1601,6 +1632,7 @@ type Dst30 struct {
 	F42 error
 	F43 error
 	F44 error
+	F45 error
 }
 
 // Dst31: every field has type func().
@@ -1650,6 +1682,7 @@ type Dst31 struct {
 	F42 func()
 	F43 func()
 	F44 func()
+	F45 func()
 }
 
 // Dst32: every field has type chan int.
@@ -1699,6 +1732,7 @@ type Dst32 struct {
 	F42 chan int
 	F43 chan int
 	F44 chan int
+	F45 chan int
 }
 
 // Dst33: every field has type [2]int.
@@ -1748,6 +1782,7 @@ type Dst33 struct {
 	F42 [2]int
 	F43 [2]int
 	F44 [2]int
+	F45 [2]int
 }
 
 // Dst34: every field has type fmtStringer.
@@ -1797,6 +1832,7 @@ type Dst34 struct {
 	F42 fmtStringer
 	F43 fmtStringer
 	F44 fmtStringer
+	F45 fmtStringer
 }
 
 // Dst35: every field has type *MyInt.
@@ -1846,6 +1882,7 @@ type Dst35 struct {
 	F42 *MyInt
 	F43 *MyInt
 	F44 *MyInt
+	F45 *MyInt
 }
 
 // Dst36: every field has type *S3.
@@ -1895,6 +1932,7 @@ type Dst36 struct {
 	F42 *S3
 	F43 *S3
 	F44 *S3
+	F45 *S3
 }
 
 // Dst37: every field has type *ext.ID.
@@ -1944,6 +1982,7 @@ type Dst37 struct {
 	F42 *ext.ID
 	F43 *ext.ID
 	F44 *ext.ID
+	F45 *ext.ID
 }
 
 // Dst38: every field has type []*S3.
@@ -1993,6 +2032,7 @@ type Dst38 struct {
 	F42 []*S3
 	F43 []*S3
 	F44 []*S3
+	F45 []*S3
 }
 
 // Dst39: every field has type []*MyInt.
@@ -2042,6 +2082,7 @@ type Dst39 struct {
 	F42 []*MyInt
 	F43 []*MyInt
 	F44 []*MyInt
+	F45 []*MyInt
 }
 
 // Dst40: every field has type ext.Box.
@@ -2091,6 +2132,7 @@ type Dst40 struct {
 	F42 ext.Box
 	F43 ext.Box
 	F44 ext.Box
+	F45 ext.Box
 }
 
 // Dst41: every field has type []ext2.T.
@@ -2140,6 +2182,7 @@ type Dst41 struct {
 	F42 []ext2.T
 	F43 []ext2.T
 	F44 []ext2.T
+	F45 []ext2.T
 }
 
 // Dst42: every field has type ext2.Code.
@@ -2189,6 +2232,7 @@ type Dst42 struct {
 	F42 ext2.Code
 	F43 ext2.Code
 	F44 ext2.Code
+	F45 ext2.Code
 }
 
 // Dst43: every field has type *error.
@@ -2238,6 +2282,7 @@ type Dst43 struct {
 	F42 *error
 	F43 *error
 	F44 *error
+	F45 *error
 }
 
 // Dst44: every field has type unsafe.Pointer.
@@ -2287,4 +2332,55 @@ type Dst44 struct {
 	F42 unsafe.Pointer
 	F43 unsafe.Pointer
 	F44 unsafe.Pointer
+	F45 unsafe.Pointer
+}
+
+// Dst45: every field has type *fmtStringer.
+type Dst45 struct {
+	F00 *fmtStringer
+	F01 *fmtStringer
+	F02 *fmtStringer
+	F03 *fmtStringer
+	F04 *fmtStringer
+	F05 *fmtStringer
+	F06 *fmtStringer
+	F07 *fmtStringer
+	F08 *fmtStringer
+	F09 *fmtStringer
+	F10 *fmtStringer
+	F11 *fmtStringer
+	F12 *fmtStringer
+	F13 *fmtStringer
+	F14 *fmtStringer
+	F15 *fmtStringer
+	F16 *fmtStringer
+	F17 *fmtStringer
+	F18 *fmtStringer
+	F19 *fmtStringer
+	F20 *fmtStringer
+	F21 *fmtStringer
+	F22 *fmtStringer
+	F23 *fmtStringer
+	F24 *fmtStringer
+	F25 *fmtStringer
+	F26 *fmtStringer
+	F27 *fmtStringer
+	F28 *fmtStringer
+	F29 *fmtStringer
+	F30 *fmtStringer
+	F31 *fmtStringer
+	F32 *fmtStringer
+	F33 *fmtStringer
+	F34 *fmtStringer
+	F35 *fmtStringer
+	F36 *fmtStringer
+	F37 *fmtStringer
+	F38 *fmtStringer
+	F39 *fmtStringer
+	F40 *fmtStringer
+	F41 *fmtStringer
+	F42 *fmtStringer
+	F43 *fmtStringer
+	F44 *fmtStringer
+	F45 *fmtStringer
 }
